@@ -94,7 +94,9 @@ impl ASetup {
                 s.frame_base[i] = r.u32();
                 s.packet_base[i] = r.u32() & 0xFFFFF;
             }
-            s.alloc[i] = match r.below(6) {
+            s.alloc[i] = match r.below(7) {
+                // exact multiples of the fragment size: the rounding of both sides must agree
+                6 => r.range(1, 40) * FRAG,
                 0 => r.range(1, 1448),
                 1 => r.range(1449, 20_000),
                 2 => r.range(20_000, 200_000),
@@ -144,21 +146,25 @@ impl Cadence {
 
     /// Step times for endpoint `ep` over [from, until); at most `max_steps`.
     pub fn steps(&self, r: &mut Rng, plan: &mut Plan, ep: usize, from_us: u64, until_us: u64, max_steps: usize, allow_stalls: bool) {
-        let mut t = from_us + r.below(self.period_us.max(1));
+        // never run out of steps before the end of the span (that would be an unintended stall)
+        let span = until_us.saturating_sub(from_us);
+        let min_period = if max_steps == usize::MAX { 0 } else { span / max_steps.max(1) as u64 + 1 };
+        let period_us = self.period_us.max(min_period);
+        let mut t = from_us + r.below(period_us.max(1));
         let mut n = 0;
         while t < until_us && n < max_steps {
             plan.push(t, r.u32() | 1, Op::Step { ep });
             if self.flush_after_step_p > 0.0 && r.chance(self.flush_after_step_p) {
-                plan.push(t + r.below(self.period_us.max(2) / 2 + 1), r.u32() | 1, Op::Flush { ep });
+                plan.push(t + r.below(period_us.max(2) / 2 + 1), r.u32() | 1, Op::Flush { ep });
             }
-            let mut dt = self.period_us;
+            let mut dt = period_us;
             if self.jitter > 0.0 {
                 dt = (dt as f64 * (1.0 - self.jitter / 2.0 + self.jitter * r.f64())) as u64;
             }
             if allow_stalls && self.stall_p > 0.0 && r.chance(self.stall_p) {
                 dt += r.log_range(50_000, self.stall_max_us);
             }
-            t += dt.max(if self.period_us == 0 { r.below(3) } else { 1 });
+            t += dt.max(if period_us == 0 { r.below(3) } else { 1 });
             n += 1;
         }
     }
